@@ -68,6 +68,8 @@ pub struct Stats {
     pub datagrams_serviced: u64,
     pub al_control_writes: Vec<(u64, u16)>,
     pub al_status_reads: u64,
+    /// The last AL status words this device reported, with the time of the read.
+    pub al_status_log: Vec<(u64, u16)>,
     pub sii_reads: u64,
     pub sii_writes: u64,
     pub sii_write_cmds: u64,
@@ -336,6 +338,11 @@ impl Device {
             self.stats.al_status_reads += 1;
             self.tick_al();
             self.refresh_dynamic(now);
+            let w = self.al_status_word();
+            if self.stats.al_status_log.len() > 4096 {
+                self.stats.al_status_log.drain(0..2048);
+            }
+            self.stats.al_status_log.push((now, w));
         }
         if a <= REG_SII_CONTROL + 1 && a + len > REG_SII_CONTROL {
             if self.sii_busy_left > 0 {
@@ -522,6 +529,15 @@ impl Device {
             // Write enable is self-clearing.
             self.mem[REG_SII_CONTROL] &= !0x01;
         }
+    }
+
+    /// Put the device into an AL state directly (application-side change), cancelling scripted behaviour.
+    pub fn force_state(&mut self, state: u8, error: bool, code: u16) {
+        self.al_state = state;
+        self.al_error = error;
+        self.al_code = code;
+        self.pending = None;
+        self.fallback = None;
     }
 
     /// Arm `n` command errors for the following write commands.
